@@ -851,6 +851,17 @@ def _from_iter(eng, m, args, fr, dty):
 @model(r'^(std::string::)?String::from_utf8_lossy$')
 def _from_utf8_lossy(eng, m, args, fr, dty):
     items = items_of(eng, args[0], fr)
+    conc_ = []
+    for b in items:
+        c_ = b.conc() if hasattr(b, 'conc') else (b.c if b.c is not None else concrete(b.e))
+        if c_ is None:
+            conc_ = None
+            break
+        conc_.append(c_)
+    if conc_ is not None and any(c_ >= 128 for c_ in conc_):
+        # fully concrete bytes: do the real lossy conversion (invalid sequences become U+FFFD)
+        out_ = bytes(conc_).decode('utf-8', errors='replace').encode('utf-8')
+        return Enum('Cow', 'Owned', [Vec([mkint(x, 'u8') for x in out_])])
     for b in items:
         if hasattr(b, 'pre'):
             if b.i >= 1000:
